@@ -4,7 +4,7 @@
     SignedCoins of tlb/models.go, has exactly the format string, parsing
     function, literal arguments and trim cutset that Model/Json.v models for
     that type. *)
-From Coq Require Import List NArith Bool.
+From Coq Require Import List NArith Bool String.
 From Tongo Require Import Model.JsonText Model.Json Generated.JsonTypes.
 Import ListNotations.
 Local Open Scope N_scope.
@@ -79,3 +79,23 @@ Theorem C20_gen_coverage :
   forallb (has 3) [80; 96; 128; 256; 264; 320; 352; 512] = true /\
   has 4 64 = true /\ has 5 64 = true.
 Proof. vm_compute. repeat split. Qed.
+
+(* the list is closed: every type of packages boc, tlb, ton, tl, abi that has BOTH
+   MarshalJSON and UnmarshalJSON today (tlb/integers.go, Grams and SignedCoins
+   are the entries of json_types above) is either a family of Model/Json.v with
+   its round-trip theorem in Properties/C20.v, or one of the reflection-based
+   envelopes of package abi, which the harness checks with the equal-value oracle
+   on library-decoded values (c20.envdec); a type that gains the method pair
+   without being put on one of the two lists fails this obligation *)
+Local Open Scope string_scope.
+Definition modelled_types : list string :=
+  ["boc.BitString"; "boc.Cell"; "tl.Int256"; "tlb.Any"; "tlb.Magic"; "tlb.Maybe"; "tlb.MsgAddress";
+   "ton.AccountID"; "ton.Bits256"].
+Definition oracle_only_types : list string :=
+  ["abi.ExtOutMsgBody"; "abi.InMsgBody"; "abi.JettonPayload"; "abi.NFTPayload"].
+Definition mem_str (x : string) (l : list string) : bool := existsb (String.eqb x) l.
+
+Theorem C20_gen_pairs_closed :
+  forallb (fun t => mem_str t (modelled_types ++ oracle_only_types)) json_pairs = true /\
+  forallb (fun t => mem_str t json_pairs) (modelled_types ++ oracle_only_types) = true.
+Proof. vm_compute. split; reflexivity. Qed.
